@@ -355,7 +355,7 @@ pub fn case_strategy() -> impl Strategy<Value = PathCase> {
 
 fn worker(ctx: &Ctx) {
     quiet_panics();
-    let n = ctx.tier.pick(120, 5000);
+    let n = ctx.tier.pick(500, 5000);
     ctx.explore("real", "c15", case_strategy(), n, 300, |c, rep| check_case(ctx, c, rep));
     let _ = ip::COUNTING.load(SeqCst);
 }
